@@ -53,7 +53,7 @@ example : (checkLinear 4 (fun _ => true)).verdict = true ∧
 invalid index: all `1 ≤ i < j*` are valid, `j*` is not; the indices asked are exactly `1..j*`; for
 `n ≥ 1`, `1 ≤ j* ≤ n`, i.e. numerator `0 ≤ j*-1 < n` (so the fraction lies in `[0,1)`,
 `linear_fraction_unit` below); for `n = 0` (zero-length motion, end state invalid) the fraction is `0`
-(since the F124 fix; `fraction_n0_old_fails` keeps the former `-1/0`).
+(since the F124 fix e0f5863f3; `fraction_n0_old_fails` keeps the former `-1/0`).
 That `lastValid.first` is `interpolate(s1,s2,fraction)` is how the code computes it and is only
 compared (harness `lvs=eq`). -/
 theorem linear_lastValid (n : Nat) (v : Nat → Bool) (h : (checkLinear n v).verdict = false) :
@@ -90,7 +90,7 @@ theorem linear_success_untouched (n : Nat) (v : Nat → Bool)
 
 example : (checkLinear 3 (fun _ => true)).failAt = none := by decide
 
-/-- [EX] the reported fraction lies in `[0, 1)` — for EVERY `n` since the F124 fix (the former side
+/-- [EX] the reported fraction lies in `[0, 1)` — for EVERY `n` since the F124 fix e0f5863f3 (the former side
 condition `n ≥ 1` is gone: a zero-length motion with an invalid end state reports `0`). -/
 theorem linear_fraction_unit (n : Nat) (v : Nat → Bool) (p : Int × Nat)
     (h : (checkLinear n v).lastValid n = some p) :
@@ -109,7 +109,7 @@ theorem linear_fraction_unit (n : Nat) (v : Nat → Bool) (p : Int × Nat)
   · obtain ⟨_, e⟩ := h0 (by omega)
     rw [e]; norm_num
 
-/-- F124 on the former code (`(double)(nd-1)/(double)nd` also for `nd = 0`): a zero-length motion with
+/-- F124 on the former code (before e0f5863f3: `(double)(nd-1)/(double)nd` also for `nd = 0`): a zero-length motion with
 an invalid end state reported the fraction `-1/0` (`-inf` at `double`), outside `[0,1)`. -/
 theorem fraction_n0_old_fails :
     ¬ ∀ (n : Nat) (v : Nat → Bool) (p : Int × Nat),
